@@ -292,14 +292,30 @@ def _cty_expected(case):
     """by-constituency levelling, literal: floors summed over constituencies, least e with overall(n-drop+e) >= floors"""
     cvotes, cprev, n = _cvotes(case), _cprev(case), case['n']
     app = {CNAMES.n(c): k for c, k in case['app']}
-    floors, tier = {}, []
+    props = {}
     for cty, dv in cvotes.items():
-        if app[cty] == 0:
-            continue
-        r = _bb(case['evaluator'], dv, app[cty])
+        props[cty] = _bb(case['evaluator'], dv, app[cty]) if app[cty] != 0 else {}
+    tier = []
+    for r in props.values():
+        for p in r:
+            if p not in tier:
+                tier.append(p)
+    # every tier party: over all constituencies, at least its direct seats and its proportional seats there
+    floors = {p: 0 for p in tier}
+    ignored = False
+    for cty in cvotes:
         d = {NAMES.i(p): k for p, k in cprev.get(cty, {}).items()}
-        for p, k in r.items():
-            floors[p] = floors.get(p, 0) + max(d.get(p, 0) if not isinstance(p, tuple) else 0, k)
+        for p in tier:
+            dk = d.get(p, 0) if not isinstance(p, tuple) else 0
+            floors[p] += max(dk, props[cty].get(p, 0))
+            if dk > 0 and p not in props[cty]:
+                ignored = True
+    for cty in cprev:
+        if cty not in cvotes:
+            for p, k in cprev[cty].items():
+                if NAMES.i(p) in floors:
+                    floors[NAMES.i(p)] += k
+                    ignored = ignored or k > 0
     drop = sum(k for cty, d in cprev.items() for p, k in d.items() if NAMES.i(p) not in floors)
     totals = {}
     for dv in cvotes.values():
@@ -314,7 +330,7 @@ def _cty_expected(case):
         if all(r.get(p, 0) >= m for p, m in floors.items()):
             least = e
             break
-    return {'floors': floors, 'drop': drop, 'least': least, 'totals': totals}
+    return {'floors': floors, 'drop': drop, 'least': least, 'totals': totals, 'ignored': ignored}
 
 
 def _cty_adj_clauses(case, obs):
@@ -337,7 +353,8 @@ def _cty_adj_clauses(case, obs):
     if exp['least'] is None:
         return [('level_no_adequate_enlargement_in_bound', str(obs))], None
     if obs < exp['least']:
-        out.append(('level_floor_unmet', f'adjustment {obs} < least adequate enlargement {exp["least"]}; floors {exp["floors"]}'))
+        cl = 'level_cty_floor_ignores_direct_seats_without_local_share' if exp['ignored'] else 'level_floor_unmet'
+        out.append((cl, f'adjustment {obs} < least adequate enlargement {exp["least"]}; floors {exp["floors"]}'))
     elif obs > exp['least']:
         out.append(('level_not_least', f'adjustment {obs} > least adequate enlargement {exp["least"]}; floors {exp["floors"]}'))
     return out, exp
@@ -350,8 +367,10 @@ def _oracle_cty_eval(case, obs):
         if not isinstance(res, dict) or res.get('err') != adj.get('err'):
             out.append(('result_despite_calculator_error', f'adj {adj} result {res}'))
         return out
+    root = any(cl == 'level_cty_floor_ignores_direct_seats_without_local_share' for cl, _ in out)
     if isinstance(res, dict):
-        return out + [('final_stage_error:' + str(res.get('err')) + ':' + case['final'], f'adjustment {adj}')]
+        cl = 'final_stage_error_after_ignored_direct_seats:' if root else 'final_stage_error:'
+        return out + [(cl + str(res.get('err')) + ':' + case['final'], f'adjustment {adj}')]
     n = case['n']
     direct = {c: {i: k for i, k in ps} for c, ps in case['cprev']}
     totals = {}
@@ -373,8 +392,9 @@ def _oracle_cty_eval(case, obs):
     house = sum(s for d in totals.values() for s in d.values())
     if house != n + adj:
         outside = exp is not None and exp['drop'] > 0
-        out.append(('house_size_by_party_outside_tier' if outside else 'house_size',
-                    f'house {house}, baseline {n} + adjustment {adj}'))
+        cl = ('house_size_after_ignored_direct_seats' if root else
+              'house_size_by_party_outside_tier' if outside else 'house_size')
+        out.append((cl, f'house {house}, baseline {n} + adjustment {adj}'))
     if exp is not None and exp['drop'] == 0 and case['final'] == case['evaluator'] and not out:
         try:
             full = _bb(case['final'], exp['totals'], n + adj)
@@ -720,6 +740,10 @@ def describe(case):
 def signature(case, clause):
     if clause == 'level_floor_unmet_at_zero_with_party_outside_tier':
         return 'level:floor_unmet_at_zero_with_party_outside_tier'
+    if (clause == 'level_cty_floor_ignores_direct_seats_without_local_share'
+            or clause == 'house_size_after_ignored_direct_seats'
+            or clause.startswith('final_stage_error_after_ignored_direct_seats:')):
+        return 'level_cty:direct_seats_without_local_share'
     return f"{case.get('op')}:{clause}"
 
 
